@@ -38,7 +38,9 @@ def manip_params(rng, op, i, n, frames):
     m = {'op': op, 'i': i}
     if op in ('flip_len', 'flip_body', 'flip_tag'):
         m['bit'] = rng.randrange(0, 1 << 20)
-        if op == 'flip_len' and rng.random() < 0.5:
+        if op == 'flip_len' and i < 8:
+            m['bit'] = 8 * i + rng.randrange(0, 8)   # every byte of the 8-byte length field is hit at least once per direction
+        elif op == 'flip_len' and rng.random() < 0.5:
             m['bit'] = rng.randrange(0, 12)      # small changes of the length: the frame boundaries shift
     if op == 'truncate_close':
         m['keep'] = rng.choice([0, 1, 7, 8, 9, rng.randrange(0, 1 << 16)])
@@ -314,7 +316,13 @@ def setup(run):
                          'distinct by (key, history, direction, manipulation, segmentation, mode)' % (len(fl.OPS) - 1))
     binary = vlib.build_impl()
     vlib.regen_facts(binary)
-    bump = read_bump(vlib.harness(binary, 'facts-frames'))
+    try:
+        bump = read_bump(vlib.harness(binary, 'facts-frames'))
+    except vlib.BrokenTie as e:
+        # the probes of the frame layer no longer behave as the model's constants say: a broken tie - and the legs below still run, so that a
+        # frame the property forbids is reported with the concrete manipulation that got through
+        run.broke('correspondence', 'facts-frames', str(e))
+        bump = 1
     run.extra['code_advances_counter'] = bool(bump)
     ok = run.check_proofs('C10', THEOREMS, extra_targets=['theories/Extract/Ex_frames.vo'])
     if not ok:
